@@ -353,7 +353,7 @@ def close(chk, crate, name):
                     if ot["t"] == "call" and len(ot["args"]) == 2:
                         dv = f.tr.value(ot["args"][1])
                         if dv.kind == "agg" and dv.rv.get("kind") == "closure":
-                            cb = f.b.crate.bodies.get(dv.rv.get("n")) if f.b.crate is not None else None
+                            cb = (f.b.crate.bodies.get(dv.rv.get("n")) or getattr(f.b.crate, "absorbed", {}).get(dv.rv.get("n"))) if f.b.crate is not None else None
                             if cb is not None:
                                 for blk_ in cb.blocks:
                                     for st_ in blk_["stmts"]:
